@@ -491,6 +491,11 @@ def rule_pass(text, log, cfgset):
         # R2b wildcard closure parameter `|_|` -> `|_w|` (Verus: only variables are supported there)
         if t.text == "|" and i + 2 < n and toks[i + 1].text == "_" and toks[i + 2].text == "|":
             rec("R2b-closure-wildcard", toks[i + 1].start, toks[i + 1].end, "_w")
+        # ... also as the first / last of several closure parameters: `|_, x|`, `|x, _|`
+        if t.text == "|" and i + 2 < n and toks[i + 1].text == "_" and toks[i + 2].text == "," and (i == 0 or toks[i - 1].text in ("(", ",", "=")):
+            rec("R2b-closure-wildcard", toks[i + 1].start, toks[i + 1].end, "_w1")
+        if t.text == "," and i + 2 < n and toks[i + 1].text == "_" and toks[i + 2].text == "|" and any(toks[k].text == "|" for k in range(max(0, i - 6), i)):
+            rec("R2b-closure-wildcard", toks[i + 1].start, toks[i + 1].end, "_w2")
         # R1 endian conversions -> trait shims (pure method rename)
         if t.kind == "id" and t.text in ENDIAN and i + 1 < n and toks[i + 1].text == "(" and i > 0 and toks[i - 1].text in (".", "::"):
             rec("R1-endian-shim", t.start, t.end, ENDIAN[t.text])
